@@ -114,3 +114,70 @@ pub fn table_matches<T: Semiring>(p: &WmcParams<T>, w: &[(T, T)], same: &dyn Fn(
     }
     None
 }
+
+// ---------------------------------------------------------------------------------------------
+// Partial models are input objects with histories as well.
+
+use rsdd::repr::{Literal, PartialModel};
+
+pub const N_MODEL_HISTORIES: usize = 6;
+
+/// the partial model `a` (index = variable label), reached by construction history `hist`
+pub fn build_model(a: &[Option<bool>], hist: usize) -> PartialModel {
+    let n = a.len();
+    let lbl = |v: usize| VarLabel::new(v as u64);
+    let finish = |m: &mut PartialModel, rev: bool| {
+        let idx: Vec<usize> = if rev { (0..n).rev().collect() } else { (0..n).collect() };
+        for v in idx {
+            match a[v] {
+                Some(x) => m.set(lbl(v), x),
+                None => m.unset(lbl(v)),
+            }
+        }
+    };
+    match hist % N_MODEL_HISTORIES {
+        0 => PartialModel::from_assignments(a),
+        1 => {
+            let lits: Vec<Literal> = (0..n).rev().filter_map(|v| a[v].map(|x| Literal::new(lbl(v), x))).collect();
+            PartialModel::from_litvec(&lits, n)
+        }
+        2 => {
+            // empty model, filled in descending label order
+            let mut m = PartialModel::new(n);
+            finish(&mut m, true);
+            m
+        }
+        3 => {
+            // every variable first holds the opposite value (true where the target leaves it
+            // unset), then the target is written over it
+            let opp: Vec<Option<bool>> = a.iter().map(|x| Some(!x.unwrap_or(false))).collect();
+            let mut m = PartialModel::from_assignments(&opp);
+            finish(&mut m, false);
+            m
+        }
+        4 => {
+            // a total model taken apart: all true, flipped / unset in descending order, and the
+            // result cloned
+            let mut m = PartialModel::from_total_model(&vec![true; n]);
+            finish(&mut m, true);
+            m.clone()
+        }
+        _ => {
+            // set, flipped, unset and set again, one variable at a time
+            let mut m = PartialModel::new(n);
+            for v in 0..n {
+                if let Some(x) = a[v] {
+                    m.set(lbl(v), !x);
+                    m.set(lbl(v), x);
+                    m.unset(lbl(v));
+                    m.set(lbl(v), x);
+                } else {
+                    m.set(lbl(v), true);
+                    m.set(lbl(v), false);
+                    m.unset(lbl(v));
+                }
+            }
+            m
+        }
+    }
+}
